@@ -235,10 +235,11 @@ def _replay(spec, path):
     print(json.dumps(r.get("render"), indent=1, default=str))
     print(f"replay digest   {r['digest']}")
     print(f"recorded digest {rp.get('digest')}")
-    if rp.get("digest") and r["digest"] != rp["digest"]:
-        print("REPLAY-MISMATCH: history digest differs from the recorded one")
-        return report.EXIT_HARNESS
+    same = not rp.get("digest") or r["digest"] == rp["digest"]
     want = rp.get("key")
+    if not same:
+        print("note: history digest differs from the recorded one - the code "
+              "under test does not behave as it did when this was recorded")
     if want in keys or (want is None and keys):
         for k, d in keyed_violations(spec, r):
             print(f"  {k}: {d}")
